@@ -5,6 +5,7 @@ from . import mirparse as mp
 from . import core as ms
 from .core import *
 from . import models
+from . import itermodels
 from .models import Exit, OUT, ENV
 from . import build
 
